@@ -547,6 +547,9 @@ func runC37(c *Ctx) error {
 		os.Setenv("TMPDIR", tmp)
 	}
 	cwd, _ := os.Getwd()
+	if err := runC37LoadBackup(c); err != nil {
+		return err
+	}
 	for i := 0; c.nCases < c.N; i++ {
 		if i%8 == 7 {
 			if err := c37inmemOnly(c); err != nil {
